@@ -67,7 +67,8 @@ func replace(regex *Regexp, data *syntax.ReplacerData, evaluator MatchEvaluator,
 		return "", errors.New("count too small")
 	}
 	if count == 0 {
-		return "", nil
+		// no match is replaced: the input comes back unchanged
+		return input, nil
 	}
 
 	if evaluator == nil {
